@@ -17,6 +17,8 @@ FiberClauses(F) ==
         \* the same scan with every fiber of the rank in progress at once delivers the same elements (each fiber scans through its OWN handle state)
         <<"P:C20:scan-independent", F.scan_exc = "ok" => F.scan2 = F.scan>>,
         <<"P:C20:lookup", F.fmt = "C" => \A k \in 1..Len(F.lookups) : F.lookups[k][2] = LookupC(F.coords, F.lookups[k][1])>>,
+        \* after a coordinate was inserted in mid-list (ins_coords: the list afterwards), lookups still find the first stored coordinate not below the query
+        <<"P:C20:lookup-after-insert", F.fmt = "C" => \A k \in 1..Len(F.ins_lookups) : F.ins_lookups[k][2] = LookupC(F.ins_coords, F.ins_lookups[k][1])>>,
         <<"P:C20:size", F.size_exc = "ok" /\ (F.leaf = 1 => F.size = words) /\ (F.leaf = 0 => (F.size = words \/ F.size = words + F.npay))>> >>
 
 Judge(B) ==
